@@ -355,6 +355,64 @@ def _decide_tensor(ctx, rule, rel, q, what, given, want, atoms=None, funcs=None,
     return ts
 
 
+def _directors_tensor(ctx, traj, masses, funcs):
+    """compute_directors(traj, [[0, 2], [1, 3]]) evaluated with the eigen-decomposition recorded: the matrix whose eigenvectors become the director of
+    a compound is, for every frame, the inertia tensor of that compound's atoms - their own masses, positions relative to their own centre of mass -
+    whichever helper computes it (atom_slice + compute_inertia_tensor today)."""
+    fn = ctx.py.func(ORDER, "compute_directors")
+    groups = [[0, 2], [1, 3]]
+    desc = "the director of a compound comes from the inertia tensor of its atoms (their masses, relative to their centre of mass), per frame"
+    seen = []
+
+    def eig(ev, call):
+        t = ev.to_ten(ev.ex(call.args[0]))
+        seen.append(t)
+        nf = t.shape[0]
+        w = Ten((nf, 3), [Rat(Poly.const(k_ + 1)) for _ in range(nf) for k_ in range(3)])
+        v = Ten((nf, 3, 3), [Rat(Poly.const(1 if i_ == j_ else 0)) for _ in range(nf) for i_ in range(3) for j_ in range(3)])
+        return (w, v)
+
+    def atom_slice(ids, inplace=False, _t=traj):
+        ids = [int(i_.const_value()) if hasattr(i_, "const_value") else int(i_) for i_ in (ids.data if isinstance(ids, Ten) else ids)]
+        ev_ = TenSym({})
+        atoms = [_t.top.atoms[i_] for i_ in ids]
+        top = Obj(atoms=atoms, n_atoms=len(ids))
+        return Obj(xyz=ev_.getitem(_t.xyz, (slice(None), ids)), n_frames=N_F, n_atoms=len(ids), top=top, topology=top)
+    traj.atom_slice = atom_slice
+    mod = ctx.py.mod(ORDER)
+    fs = dict(funcs, **{q_: f_ for q_, f_ in mod.functions.items() if "." not in q_ and q_ != "compute_directors"})
+    ts = TenSym({}, funcs=fs, models={"np.linalg.eig": eig, "np.linalg.eigh": eig, "linalg.eig": eig})
+    try:
+        ts.run_fn(fn, traj=traj, indices=[list(g_) for g_ in groups])
+    except ShapeError as e:
+        ctx.violated("C16-R9", fn, ORDER, "compute_directors", desc, "the array operations do not fit: %s" % e)
+        return
+    except (TUnsupported, PUnsupported) as e:
+        ctx.undecided("C16-R9", fn, ORDER, "compute_directors", desc, "not evaluable: %s" % e)
+        return
+    finally:
+        del traj.__dict__["atom_slice"]
+    why = []
+    if len(seen) != len(groups):
+        why.append("%d eigen-decompositions for %d compounds" % (len(seen), len(groups)))
+    else:
+        for g_, t in zip(groups, seen):
+            Mg = sum((masses[a] for a in g_), Rat(Poly.const(0)))
+            def want(f, i, k, g_=g_, Mg=Mg):
+                com = [sum((masses[a] * _x(f, a, c) for a in g_), Rat(Poly.const(0))) / Mg for c in range(3)]
+                tot = Rat(Poly.const(0))
+                for a in g_:
+                    r = [_x(f, a, c) - com[c] for c in range(3)]
+                    r2 = r[0] * r[0] + r[1] * r[1] + r[2] * r[2]
+                    tot = tot + masses[a] * ((r2 if i == k else Rat(Poly.const(0))) - r[i] * r[k])
+                return tot
+            W = _spec((N_F, 3, 3), want)
+            d = ts.first_difference(t, W) if t.shape == W.shape else "shape %s" % (t.shape,)
+            if d is not None:
+                why.append("compound %s: the matrix decomposed is not its inertia tensor about its centre of mass (%s)" % (g_, str(d)[:120]))
+    ctx.decide(not why, "C16-R9", fn, ORDER, "compute_directors", desc, "", "; ".join(why[:2]))
+
+
 def r_tensor(ctx):
     traj, masses = _model(ctx)
     funcs = _funcs(ctx)
@@ -408,6 +466,7 @@ def r_tensor(ctx):
     _decide_tensor(ctx, "C16-R9", ORDER, "compute_inertia_tensor", "I[f,i,k] = sum_a m_a (|r_a|^2 delta_ik - r_a,i r_a,k), r relative to the centre of mass", {"traj": traj}, I, funcs=funcs)
     if "_compute_inertia_tensor_slow" in funcs:
         _decide_tensor(ctx, "C16-R9", ORDER, "_compute_inertia_tensor_slow", "reference implementation gives the same tensor", {"traj": traj}, I, funcs=funcs)
+    _directors_tensor(ctx, traj, masses, funcs)
     n_c = 5
     e = Ten.sym("e", (N_F, n_c, 3))
 
